@@ -48,7 +48,7 @@ void h_get_many_bits(void) {
 	uint8_t dst[12] = { 0xEE, 0xEE, 0xEE, 0xEE, 0xEE, 0xEE, 0xEE, 0xEE, 0xEE, 0xEE, 0xEE, 0xEE };
 	memset(&pd, 0, sizeof(pd));
 	pd.buffer = data; pd.nboff = nboff; pd.nbits = nbits;
-	__CPROVER_assume(PD_OK(pd, data) && want >= 0 && want <= 48);
+	__CPROVER_assume(PD_OK(pd, data) && want >= 0 && want <= 32);
 	size_t pos0 = nboff, left0 = nbits - nboff;
 	int r = asn_get_many_bits(&pd, dst, alright, want);
 	VF_CANARY();
@@ -116,7 +116,7 @@ void h_put_many_bits(void) {
 	VF_SCALAR(size_t, off); VF_SCALAR(size_t, nboff); VF_SCALAR(int, nb); VF_SCALAR(size_t, q);
 	asn_bit_outp_t po;
 	int key = 0;
-	__CPROVER_assume(off < 32 && nb >= 0 && nb <= 48);
+	__CPROVER_assume(off < 32 && nb >= 0 && nb <= 32);
 	memcpy(po.tmpspace, tmp0, 32);
 	po.buffer = po.tmpspace + off; po.nbits = 8 * (32 - off); po.nboff = nboff;
 	po.output = vf_cb; po.op_key = &key; po.flushed_bytes = 0;
